@@ -24,6 +24,10 @@ type sharedRule struct {
 }
 
 var sharedRules = map[string][]sharedRule{
+	"C02": {
+		{"C12", "C12-entry-removal", "C02-entry-removal", nil,
+			"pool shares are held as committed-token entries; removing the wrong entry when another denom is emptied deletes an account's shares of a different pool from the ledger (committed sum < supply, and the owner cannot exit)"},
+	},
 	"C03": {
 		{"C01", "C01-pool-fresh", "C03-pool-fresh", []string{"x/amm/keeper."},
 			"a hop priced against a pool record read before an earlier hop changed it trades twice at one price: a route that revisits a pool gains more than the formula allows"},
@@ -33,20 +37,38 @@ var sharedRules = map[string][]sharedRule{
 	"C05": {
 		{"C11", "C11-amm-hook-coverage", "C05-accounted-refresh", nil,
 			"oracle pools value a share from the accounted pool; if a join, exit or swap leaves it unrefreshed the next single-asset exit is paid against liquidity that is already gone"},
+		{"C03", "C03-snapshot-role", "C05-snapshot-role", nil,
+			"a join priced on the per-block snapshot instead of the live pool mints the second join of a block at the first one's price: more shares than the deposit is worth"},
+		{"C11", "C11-formula", "C05-accounted-formula", nil,
+			"oracle pools value shares (TVL) from the accounted balance amm + (liabilities − custody); a refresh that drops or clamps the signed non-amm part inflates TVL and single-asset exits overpay"},
 		{"C02", "C02-supply-vs-totalshares-cancel", "C05-minted-is-computed", []string{"JoinPool", "ExitPool"},
 			"the share amount minted (burned) is the amount computed from the deposit (withdrawal) and booked in TotalShares, not another value of the same type"},
 		{"C01", "C01-pool-fresh", "C05-pool-fresh", []string{"JoinPool", "ExitPool", "ApplyJoin", "ApplyExit"},
 			"a join or exit valued against a pool record that an earlier step already changed mis-states the share value"},
 	},
 	"C07": {
+		{"C06", "C06-ledger-cancel", "C07-value-ledger", nil,
+			"TotalValue is what a share redeems against: an update that moves it without the matching cash or debt change (a write-down skipped when the vault empties, a write-up without a deposit) changes every other lender's redemption value"},
+		{"C06", "C06-ledger-assign", "C07-value-assign", nil,
+			"a plain overwrite of TotalValue (e.g. from the stale copy carried in a parameter-change message) wipes deposits, withdrawals and accrued interest from the value shares redeem against"},
 		{"C06", "C06-interest-record", "C07-interest-record", nil,
 			"interest is charged from per-block running sums; a missing block record makes the difference of two sums a difference of two rates, negative after a rate cut, and TotalValue (the redemption value) falls on another user's repay"},
+	},
+	"C09": {
+		{"C11", "C11-amm-hook-coverage", "C09-hook-after-store", nil,
+			"the perpetual hook re-reads the amm pool from the store for its minimum-custody check: if the amm pool is stored only after the After* hook runs, the check compares custody with the balances from before the exit or swap and never refuses"},
 	},
 	"C11": {
 		{"C09", "C09-pool-persisted", "C11-perp-pool-persisted", nil,
 			"the accounted balance is refreshed from the in-memory perpetual pool; if that pool's liabilities or custody change is not stored the block ends with accounted ≠ reserve + stored liabilities − stored custody"},
 	},
+	"C13": {
+		{"C11", "C11-amm-hook-coverage", "C13-share-change-hook", nil,
+			"masterchef settles a user's reward debt in the AfterJoinPool / AfterExitPool hooks; a join that mints shares without running the hook leaves the debt stale and the new shares are credited the pool's whole reward history (more than was collected)"},
+	},
 	"C15": {
+		{"C02", "C02-supply-vs-committed-cancel", "C15-share-mint-credited", nil,
+			"share tokens are minted in exactly the amount credited to the depositor in the commitment ledger; minting the deposit amount while crediting the share amount creates unbacked share tokens whenever the rate is not 1"},
 		{"C02", "C02-supply-vs-totalshares-cancel", "C15-share-mint-backed", nil,
 			"share tokens are bank-minted and burned only in the amount booked against the deposit or withdrawal"},
 		{"C14", "C14-claim", "C15-vesting-claim", nil,
